@@ -45,12 +45,22 @@ def buffer_at_exit(p):
         g = heads[-1].data['gen'].get(('attr', 'buffer'))
         if g is not None:
             return g
-    # unrolled run: last assignment to buffer before the final slices
+    # unrolled run: the buffer after the last refill = value stored by the assignment that follows the last
+    # non-empty file read (refill append), else the entry value
     val = p.interp.user['buf0']
-    for e in p.events:
-        if e.kind == 'setattr' and e.data['attr'] == 'buffer' and e.under(READ) and e.data.get('aug'):
-            val = e.data['value']
+    f = p.interp.user['file']
+    evs = [e for e in p.events if e.under(READ)]
+    for i, e in enumerate(evs):
+        if e.kind == 'read' and e.data['file'] is f:
+            nxt = next((x for x in evs[i + 1:] if (x.kind == 'setattr' and x.data['attr'] == 'buffer')
+                        or (x.kind == 'read' and x.data['file'] is f) or x.kind == 'return'), None)
+            if nxt is not None and nxt.kind == 'setattr' and st_nonempty(p, e):
+                val = nxt.data['value']
     return val
+
+
+def st_nonempty(p, read_event):
+    return p.store.decide_eq0(read_event.data['data'].length()) is not True
 
 
 def check(prog, res, tier):
